@@ -235,7 +235,7 @@ class World:
             cm = zone * P.zonewidth + P.initialcm - P.zonewidth
         lo, hi = {"0": (0, 0), "0-3": (1e-7, 3.0), "3-10": (3.0, 10.0), "10-30": (10.0, 30.0)}[s["dlon"]]
         if s["prj"] == "isg":
-            hi = min(hi, 1.0)
+            hi = min(hi, 0.999)         # strictly inside the ten ISG zones (their neighbours, e.g. 571, are not valid codes)
         d = r.uniform(lo, hi) if hi > 0 else 0.0
         if s["dlon"] == "0-3" and r.random() < 0.15:
             d = r.choice([1e-7, 1e-5, hi])
